@@ -6,6 +6,7 @@ import (
 	"net/http"
 	"strings"
 	"sync"
+	"time"
 )
 
 // IPHashConsistentStrategy implements IP hash with Jump Consistent Hash algorithm.
@@ -66,8 +67,9 @@ func (iph *IPHashConsistentStrategy) NextBackend(r *http.Request) *Backend {
 
 	// Get healthy backends
 	healthyBackends := make([]*Backend, 0)
+	now := time.Now()
 	for _, b := range iph.backends {
-		if b.IsHealthy {
+		if b.eligible(now) {
 			healthyBackends = append(healthyBackends, b)
 		}
 	}
